@@ -5,7 +5,7 @@
    sessions"). *)
 From Coq Require Import String NArith Bool List Sorted Permutation Lia.
 From Verif Require Import Model.FrrMgr Proofs.FrrSortP Proofs.FrrListsP Proofs.FrrShapeP Proofs.FrrP Proofs.FrrSemP
-     Proofs.FrrOutP Proofs.FrrExactP Proofs.FrrK8sP.
+     Proofs.FrrOutP Proofs.FrrExactP Proofs.FrrK8sP Proofs.FrrWfP.
 Import ListNotations.
 Open Scope string_scope.
 
@@ -421,4 +421,46 @@ Proof.
     + match type of E with context [match ?X with _ => _ end] => destruct X end; inversion E; subst; simpl; assumption.
     + destruct xr; [|inversion E; subst; assumption].
       match type of E with context [match ?X with _ => _ end] => destruct X end; inversion E; subst; simpl; assumption.
+Qed.
+
+(* ---------- hist_ok decided (for examples) ---------- *)
+Definition good_frr_b (l : list (string * session)) : bool :=
+  all2 (map snd l) (fun s t => imp (String.eqb (rkey s) (rkey t) && String.eqb (nname s) (nname t)) (session_eqb s t)).
+
+Lemma good_frr_b_sound l : good_frr_b l = true -> good_frr l.
+Proof.
+  intros H s t Hs Ht E1 E2. apply session_eqb_sound. apply (imp_sound _ _ (all2_sound _ _ H s t Hs Ht)).
+  rewrite E1, E2, !String.eqb_refl. reflexivity.
+Qed.
+
+Fixpoint hist_ok_frr_b (st : mstate) (ops : list mop) : bool :=
+  match ops with
+  | [] => true
+  | o :: r =>
+      good_frr_b (ms_sessions st) &&
+      (match o with MNew p => match aget (sname p) (ms_sessions st) with None => true | Some _ => false end | _ => true end) &&
+      hist_ok_frr_b (fst (fst (mstep gen_frr true st o))) r
+  end.
+
+Lemma hist_ok_frr_b_sound ops : forall st, hist_ok_frr_b st ops = true -> hist_ok gen_frr true good_frr st ops.
+Proof.
+  induction ops as [|o r IH]; intros st H; simpl in *; [exact I|].
+  apply andb_true_iff in H as [H H3]. apply andb_true_iff in H as [H1 H2].
+  split; [apply good_frr_b_sound; assumption|]. split; [|apply IH; assumption].
+  destruct o; try exact I. destruct (aget (sname p) (ms_sessions st)); [discriminate|reflexivity].
+Qed.
+
+Fixpoint hist_ok_k8s_b (node : string) (st : mstate) (ops : list mop) : bool :=
+  match ops with
+  | [] => true
+  | o :: r =>
+      (match o with MNew p => match aget (sname p) (ms_sessions st) with None => true | Some _ => false end | _ => true end) &&
+      hist_ok_k8s_b node (fst (fst (mstep (gen_k8s node) false st o))) r
+  end.
+
+Lemma hist_ok_k8s_b_sound node ops : forall st, hist_ok_k8s_b node st ops = true -> hist_ok (gen_k8s node) false (fun _ => True) st ops.
+Proof.
+  induction ops as [|o r IH]; intros st H; simpl in *; [exact I|].
+  apply andb_true_iff in H as [H1 H2]. split; [exact I|]. split; [|apply IH; assumption].
+  destruct o; try exact I. destruct (aget (sname p) (ms_sessions st)); [discriminate|reflexivity].
 Qed.
